@@ -145,11 +145,14 @@ Definition modelled_ordered_container_fields : list ((string * string * string) 
 ].
 
 (* code that C13/Model.v and C13/Unloaded.v model, as written, each with the Gallina definition that stands for it: an edit to
-   one of these six pieces of code changes the generated text and breaks c13_pinned_code_modelled until the model is brought in line *)
+   one of these seven pieces of code changes the generated text and breaks c13_pinned_code_modelled until the model is brought in line *)
 Definition modelled_pinned_code : list ((string * string * string) * string) := [
   (("processor/evil.rs", "handle_evil",
     "{letmutcert_map=HashMap::new();letmutcerts=certs.into_iter().collect::<Vec<_>>();certs.sort();for(cert,modules)incerts{formoduleinmodules{cert_map.insert(module,cert.clone());}}cert_map}"),
    "Model.cert_of / last_cert (later insert wins) on Unloaded.hm_of_members");
+  (("processor/processor.rs", "check_for_bitflips",
+    "forregin&exception_details.instruction_registers{ifletSome(address)=context.get_register(reg){info.possible_bit_flips.extend(bitflip::try_bit_flips(address,Some(reg),bit_range,Some(context),&self.memory_info,memory_op,));}}"),
+   "Unloaded.bitflip_candidates (flat_map over oset_of_list)");
   (("processor/processor.rs", "into_process_state/walk future",
     "ifframe.module.is_none(){letmutoffsets=BTreeMap::new();forunloadedinunloaded_modules.modules_at_address(frame.instruction){letoffset=frame.instruction-unloaded.raw.base_of_image;offsets.entry(unloaded.name.clone()).or_insert_with(BTreeSet::new).insert(offset);}frame.unloaded_modules=offsets;}"),
    "Unloaded.frame_offsets / offsets_loop (chk_sub, map_upsert)");
